@@ -49,6 +49,13 @@ ANCHORS = [
     ("SENDER_COMPRESSED_COMMAND", "src/transport/ssh.rs",
      r'Compression::Lz4 \| Compression::Zstd => \{[\s\S]*?"\{\} (receive-file) \{\} \{\}"[\s\S]*?Compression::None => \{[\s\S]*?sftp\.create\(', "str"),
     ("SENDER_SPARSE_COMMAND", "src/transport/ssh.rs", r'"\{\} (receive-sparse-file) \{\} --total-size \{\} --regions \'\{\}\' \{\}"', "str"),
+    # how the writers open their output path: File::create truncates what the path held before
+    ("HELPER_RECEIVE_FILE_TRUNCATES", "src/bin/sy-remote.rs",
+     r"(let mut output_file = std::fs::File::create\(&output_path\)\?;)\s*output_file\.write_all\(&file_data\)\?;", "flag"),
+    ("HELPER_SPARSE_TRUNCATES", "src/bin/sy-remote.rs",
+     r"(let mut output_file = std::fs::File::create\(&output_path\)\?;)\s*output_file\.set_len\(total_size\)\?;", "flag"),
+    ("LOCAL_SPARSE_SEEK_CREATES", "src/transport/local.rs", r"^fn copy_sparse_file_seek\([\s\S]*?\n\}\n", "count:let mut dst_file = File::create\\(dest\\)\\?;"),
+    ("LOCAL_SPARSE_BLOCKS_CREATES", "src/transport/local.rs", r"^fn copy_sparse_file_blocks\([\s\S]*?\n\}\n", "count:let mut dst_file = File::create\\(dest\\)\\?;"),
     ("VERIFY_REPLACES_NONE_CHECKSUM", "src/sync/mod.rs", r"let checksum_type = if self\.checksum (\|\| self\.verification_mode == ChecksumType::None) \{", "flag"),
     ("VERIFY_BODY_MUTATING_CALLS", "src/sync/mod.rs", r"pub async fn verify\(&self[\s\S]*?\n    \}\n", "count:copy_file|sync_file_with_delta|\\.remove\(|create_dir_all|create_symlink|create_hardlink|write_file|set_file_mtime|std::fs::write|File::create"),
     # C16: order in which src/main.rs feeds the filter engine, and what each step calls
